@@ -79,6 +79,21 @@ theorem good_delayRest (c a : Nat) (rest : List (String × Kw)) : Good n na T (d
   unfold delayRest
   exact Good.bind Good.getHeap (fun h _ => Good.updCells _ _)
 
+theorem good_regSub (ext : Option Nat) (c : Nat) (hT : ∀ e, ext = some e → n ≤ e ∨ e ∈ T) :
+    Good n na T (regSub ext c) Any := by
+  unfold regSub
+  split
+  · rename_i e
+    exact Good.updCls _ _ (hT e rfl) (fun _ => ⟨rfl, rfl, rfl⟩)
+  · exact Good.pure' _ trivial
+
+theorem good_regSubVariant (F : Facts15) [d : DeepCopy F] (ext : Option Nat) (c : Nat) :
+    Good n na T (regSubVariant F ext c) Any := by
+  unfold regSubVariant
+  have hb : (F.subsRule == SubsRule.alsoVariants) = false := by rw [d.subsClasses]; rfl
+  rw [hb]
+  exact Good.pure' _ trivial
+
 theorem good_newVariantTail (rec0 : AttrRec) (sc : Cls) (src : Nat) (ext : Option Nat) (kw : Kw) :
     Good n na T (newVariantTail rec0 sc src ext kw) (fun p => n ≤ p.2) := by
   unfold newVariantTail
@@ -120,6 +135,7 @@ theorem goodCust (F : Facts15) [DeepCopy F] (fuel : Nat) : GoodCust F n na T fue
       refine Good.bind Good.getHeap (fun h _ => ?_)
       refine Good.bind (Good.liftExcept _) (fun ext _ => ?_)
       refine Good.bind (good_newVariant _ _ _ _ _) (fun an hc => ?_)
+      refine Good.bind (good_regSubVariant _ _ _) (fun _ _ => ?_)
       refine Good.bind (ih.processCaa _ _ _ _ _ (Or.inl hc)) (fun _ _ => ?_)
       refine Good.bind (ih.processCa _ _ _ (Or.inl hc)) (fun _ _ => ?_)
       exact Good.pure' _ hc
@@ -249,15 +265,16 @@ theorem goodMand (F : Facts15) [DeepCopy F] (hF : F.mandRule = .copies) (fuel : 
           · exact Good.pure' _ trivial
         · exact Good.fail _
 
-theorem good_subclassOp (F : Facts15) (base : Option Nat) (name : String) (ns : Option String)
-    (fields : List (String × Nat)) (perm : List Nat) (attrs : Option Kw) (mixins : List Nat) (asMixin : Bool) :
-    Good n na T (subclassOp F base name ns fields perm attrs mixins asMixin) (Fresh n) := by
-  unfold subclassOp
-  refine Good.bind (Good.getCls _) (fun bc _ => ?_)
-  refine Good.bind (Good.liftExcept _) (fun ext _ => ?_)
+theorem good_subclassRest (F : Facts15) (b : Nat) (bc : Cls) (ext : Option Nat) (name : String) (ns : Option String)
+    (fields : List (String × Nat)) (perm : List Nat) (attrs : Option Kw) (mixins : List Nat) (asMixin : Bool)
+    (hT : ∀ e, ext = some e → n ≤ e ∨ e ∈ T) :
+    Good n na T (subclassRest F b bc ext name ns fields perm attrs mixins asMixin) (Fresh n) := by
+  unfold subclassRest
   refine Good.bind Good.getHeap (fun h _ => ?_)
   refine Good.bind (Good.guardNone _) (fun _ _ => ?_)
-  exact Good.allocBoth _ _
+  refine Good.bind (Good.allocBoth _ _) (fun c hc => ?_)
+  refine Good.bind (good_regSub _ _ hT) (fun _ _ => ?_)
+  exact Good.pure' _ hc
 
 theorem good_xmlattrOp (F : Facts15) (src : Nat) : Good n na T (xmlattrOp F src) (Fresh n) := by
   unfold xmlattrOp
